@@ -215,6 +215,12 @@ def run_one(ctx, c, kind):
 
 def run(ctx):
     n = 8 if ctx.quick else 80
+    # always present: an intensity-dependent (callable) noise model on double- and single-ended fibres with unreferenced stretches,
+    # compared with the same variances given as arrays
+    for double in (True, False):
+        c = fibre.make_case(ctx.rng, double=double, nx=ctx.rng.randint(18, 26), nt=3, n_baths=2, n_stretch=3, nta=ctx.rng.choice([0, 1]),
+                            n_match=0, noise=0.01, var_kind="callable", atten=1.0)
+        run_one(ctx, c, "var_form")
     for _ in range(n):
         double = ctx.rng.random() < 0.5
         c = fibre.make_case(ctx.rng, double=double, nx=ctx.rng.randint(14, 30), nt=ctx.rng.randint(2, 4), n_baths=ctx.rng.choice([2, 3]),
